@@ -235,7 +235,11 @@ impl<'a> StagesBuilder<'a> {
                 for system in group {
                     let system: &SystemId = system;
 
-                    let mut name = (*map.get(system).unwrap()).to_string();
+                    // Systems registered with an empty name are not in the map.
+                    let mut name = match map.get(system) {
+                        Some(name) => (*name).to_string(),
+                        None => format!("unnamed_{}", system.0),
+                    };
                     name = name.replace([' ', '-', '/'], "_");
 
                     writeln!(f, "\t\t\t{},", name)?;
